@@ -603,7 +603,13 @@ impl<'a, 'tcx> Cx<'a, 'tcx> {
             }
             P::Guard(inner, g) => J::k("GuardPat").with("pat", self.pat(inner)).with("guard", self.expr(g)),
             P::Range(..) => J::k("RangePat"),
-            P::Slice(..) => J::k("SlicePat"),
+            P::Slice(before, mid, after) => {
+                let mut o = J::k("SlicePat");
+                o.put("before", J::Arr(before.iter().map(|x| self.pat(x)).collect()));
+                o.put("mid", mid.map(|m| self.pat(m)).unwrap_or(J::Null));
+                o.put("after", J::Arr(after.iter().map(|x| self.pat(x)).collect()));
+                o
+            }
             P::Never => J::k("NeverPat"),
             P::Err(_) => J::k("ErrPat"),
         }
